@@ -31,22 +31,30 @@ func checkC21(c *Ctx, r *Report) {
 		}))}
 		n := 0
 		for _, b := range rf.Blocks {
-			ret, ok := b.Instrs[len(b.Instrs)-1].(*ssa.Return)
-			if !ok || len(ret.Results) != 1 || !isNilConstInOrigins(ret.Results[0]) {
+			ret0, ok := b.Instrs[len(b.Instrs)-1].(*ssa.Return)
+			if !ok || len(ret0.Results) != 1 {
 				continue
 			}
-			n++
-			key := fmt.Sprintf("refreshSnapshot success return #%d has installed the snapshot it read", n)
-			if checkGuarded(m, rf, ret, empty).OK {
-				r.ok("C21.S4", key, m.Pos(ret.Pos()), "nothing stored in etcd")
-				continue
-			}
-			if ok, path := mustPassBefore(m, rf, ret, func(in ssa.Instruction) bool {
-				return isCallTo(in, "(*"+pkgMetadata+".InMemoryStore).Update")
-			}); ok {
-				r.ok("C21.S4", key, m.Pos(ret.Pos()), "after InMemoryStore.Update")
-			} else {
-				r.viol("C21.S4", key, m.Pos(ret.Pos()), "the store keeps its old view although etcd holds a snapshot: "+path+" — its next whole-snapshot write then erases what other brokers created")
+			// each way the return can yield nil is judged where that nil comes from (one merged
+			// `return err` after a folded helper has several)
+			for _, site := range returnSites(ret0, 0) {
+				if !isNilConstInOrigins(site.Val) {
+					continue
+				}
+				ret := site.At
+				n++
+				key := fmt.Sprintf("refreshSnapshot success return #%d has installed the snapshot it read", n)
+				if checkGuarded(m, rf, ret, empty).OK {
+					r.ok("C21.S4", key, m.Pos(ret.Pos()), "nothing stored in etcd")
+					continue
+				}
+				if ok, path := mustPassBefore(m, rf, ret, func(in ssa.Instruction) bool {
+					return isCallTo(in, "(*"+pkgMetadata+".InMemoryStore).Update")
+				}); ok {
+					r.ok("C21.S4", key, m.Pos(ret.Pos()), "after InMemoryStore.Update")
+				} else {
+					r.viol("C21.S4", key, m.Pos(ret.Pos()), "the store keeps its old view although etcd holds a snapshot: "+path+" — its next whole-snapshot write then erases what other brokers created")
+				}
 			}
 		}
 		if n == 0 {
